@@ -282,6 +282,9 @@ class P(Prop):
                         ch = op["sc"]
                         if any(t in ("bb_input", "bb_output") and out for _, t, out in ch["nodes"]):
                             sig = "fill-child-pin-output"
+                    if op["op"] == "fill_blackbox" and o == "ok" and any(x.startswith(op["name"] + ".") for x in gone):
+                        # K24: the caller removed a pin of this instance and re-created a node of that name
+                        sig = "fill-recreated-pin"
                     self.fail("search", sig, f"after {op['op']} ({o}): {v[1]}", case)
                     return
             if o != "ok":
@@ -338,6 +341,15 @@ class P(Prop):
                              {"op": "add_blackbox", "bb": ["t", ["a"], ["b.d"]], "name": "u",
                               "connections": [["b.d", "o"], ["a", "i"]]},
                              {"op": "fill_blackbox", "name": "u", "sc": c_to_json(sc)}])
+        # K24: remove a pin, re-create a node of that name with another type and fan-in, then fill
+        c = cg.Circuit()
+        ch = cg.Circuit("ch")
+        ch.add("d", "input")
+        self.run_history(c, [{"op": "add", "n": "a", "type": "input"}, {"op": "add", "n": "b", "type": "input"},
+                             {"op": "add_blackbox", "bb": ["ff", ["d"], []], "name": "u", "connections": []},
+                             {"op": "remove", "ns": ["u.d"]},
+                             {"op": "add", "n": "u.d", "type": "and", "fanin": ["a", "b"]},
+                             {"op": "fill_blackbox", "name": "u", "sc": c_to_json(ch)}])
         # K12: rejected add leaves an edge
         c = cg.Circuit()
         self.run_history(c, [{"op": "add", "n": "b", "type": "buf"},
